@@ -69,6 +69,14 @@ def NoBacktrack : List Nat → Prop
   | a :: b :: c :: l => c ≠ a ∧ NoBacktrack (b :: c :: l)
   | _ => True
 
+instance : ∀ l, Decidable (NoBacktrack l)
+  | [] => isTrue trivial
+  | [_] => isTrue trivial
+  | [_, _] => isTrue trivial
+  | a :: b :: c :: l =>
+    have := instDecidableNoBacktrack (b :: c :: l)
+    by unfold NoBacktrack; infer_instance
+
 /-- **what the edge-state BFS computes**: ends of *walks* from `x` that never return to `x`, never touch
     `y`, never step straight back, and whose consecutive triples are all ok -/
 def PdsWalk (G : MG) (x : Nat) (y : Option Nat) (v : Nat) : Prop :=
